@@ -66,6 +66,22 @@
       [//b[1]/..] against [( / descendant-or-self::node() / child::b [ position() = 1]/parent::node() )]
       on a dumped document.
 
+    - the same conclusion with EVERY axis (the namespace axis included) and on documents with
+      nodes of order key 0 (DTD-default attributes, the implicit xml namespace node: finding D19):
+      [spelling_irrelevant_ord_partial], under [DocOrd doc] instead of [DocInv doc] and [xnons a]:
+      the table is a tree ([DocWf]), NON-ZERO order keys identify rows ([keys_inj]) and the
+      descendant-or-self list of every row is key-sorted ([dos_sorted]: the sort that the explicit
+      step applies is the identity) -- decidable, [XPathSpellingOrd.doc_ord_b], sound by
+      [doc_ord_b_sound]; it holds on every dumped example table, the one with DTD-default
+      attributes included ([c08_dtd_doc_ord]).  Nodes with key 0 survive the de-duplication after
+      a step but the final [union_finish] keeps the FIRST of them, so here the proof follows the
+      ORDER of first occurrence in the collected lists ([XPathReachOrd.feq]: every search finds
+      the same first hit) through a pure description of the evaluation of a list of steps
+      ([PT], [DT], [xstepops_pure], [PT_feq], [PT_app], [PT_flat], [NIv_feq], [path_equivV],
+      [uf_sort_feq]).  Example [ex_ord_same] / [ex_ord_value]:
+      [//a//@d | //a//namespace::*] against the unabbreviated spelling on a document whose [d]
+      attributes come from the DTD.
+
     - everything except [//], at full strength: [spelling_irrelevant_light]: two spellings with the
       same LIGHT normal form ([XPathSpellingLight.lnorm]: parentheses dropped, [@] / the omitted axis /
       [.] / [..] expanded, a numeric predicate turned into [position() = n]; the separators [/] and
@@ -89,18 +105,16 @@
       expression context) makes every unprefixed function name unknown, so [/*/*[position() = 1]] is
       the error NotFoundFunction(position) where [/*/*[1]] has a value: hypothesis
       [ns_lookup bind None = None] (C05 has the same one).
-    Excluded WITHOUT a known counterexample (for [//] only; [spelling_irrelevant_light] covers them
-    for all the other equivalences): the namespace axis and documents with DTD-default attributes
-    (order key 0: finding D19) -- nodes with key 0 are exempt from the de-duplication after a step
-    but not from the final one, which keeps the first of them, so the proof would have to follow
-    the ORDER of the collected lists, not only their elements.
+    Not covered, without a known counterexample (for [//] only; [spelling_irrelevant_light] covers
+    every table for all the other equivalences): tables that satisfy neither [DocInv] (with a tree
+    free of the namespace axis) nor [DocOrd].
     The failing-input search of checks/C08.py still evaluates every generated spelling pair on
     the real [query]. *)
 From Coq Require Import List NArith Arith Bool.
 From XmlRs Require Import Base.CPred Spec.XPathSyntax Model.Peg Model.XPathAst
   Model.ParseActionsXPath Model.XPathAstAbs Proofs.XPathParseExpr Proofs.XPathParseMain Proofs.XPathSyntaxLemmas Proofs.XPathParsePrecedence Proofs.XPathParseTotal.
 From XmlRs Require Model.XDoc Model.XPathEval Proofs.XPathCanon Proofs.XPathAstShaped Proofs.XPathParseShaped Proofs.XPathAbsEval
-  Proofs.XPathAbsInv Proofs.XPathSpellingLight Proofs.XPathSpellingMain Proofs.XPathSpellingExamples.
+  Proofs.XPathAbsInv Proofs.XPathSpellingOrd Proofs.XPathSpellingLight Proofs.XPathSpellingMain Proofs.XPathSpellingExamples.
 Import ListNotations.
 
 (** [Theorem]s have their assumptions re-checked on every run of checks/C08.py; [Corollary]s are
@@ -255,6 +269,26 @@ Corollary spelling_irrelevant_fails : forall doc bind a sp1 sp2,
    (forall v, XPathSpellingMain.query_model doc bind (spell a sp2) <> XPathSpellingMain.QValue v)).
 Proof. exact XPathSpellingMain.spelling_irrelevant_fails_proof. Qed.
 
+(** every axis, documents with nodes of order key 0 (finding D19): [DocOrd] instead of [DocInv] and [xnons] *)
+Theorem spelling_irrelevant_ord_partial : forall doc bind a sp1 sp2,
+  ok_spelling a sp1 -> ok_spelling a sp2 ->
+  no_fname_case (surface sp1) = true -> no_fname_case (surface sp2) = true ->
+  XPathSpellingOrd.DocOrd doc -> XPathEval.ns_lookup bind None = None ->
+  forall v, XPathSpellingMain.query_model doc bind (spell a sp1) = XPathSpellingMain.QValue v <->
+            XPathSpellingMain.query_model doc bind (spell a sp2) = XPathSpellingMain.QValue v.
+Proof. exact XPathSpellingMain.spelling_irrelevant_ord_proof. Qed.
+
+Corollary doc_ord_b_sound : forall doc, XPathSpellingOrd.doc_ord_b doc = true -> XPathSpellingOrd.DocOrd doc.
+Proof. exact XPathSpellingOrd.doc_ord_b_sound. Qed.
+
+Corollary spelling_irrelevant_ord_context_partial : forall doc a sp1 sp2 e1 e2 c,
+  ok_spelling a sp1 -> ok_spelling a sp2 ->
+  no_fname_case (surface sp1) = true -> no_fname_case (surface sp2) = true ->
+  parse_expr (spell a sp1) = POk e1 [] -> parse_expr (spell a sp2) = POk e2 [] ->
+  XPathSpellingOrd.DocOrd doc -> XPathEval.ns_lookup (XPathEval.c_ns c) None = None ->
+  forall v c', XPathEval.query doc e1 c = (XDoc.Ok v, c') <-> XPathEval.query doc e2 c = (XDoc.Ok v, c').
+Proof. exact XPathSpellingMain.spelling_irrelevant_ord_context_proof. Qed.
+
 (** the same for an arbitrary context (not only a fresh one), with the context that is left *)
 Corollary spelling_irrelevant_context_partial : forall doc a sp1 sp2 e1 e2 c,
   ok_spelling a sp1 -> ok_spelling a sp2 ->
@@ -315,6 +349,10 @@ Proof. exact XPathSpellingExamples.default_namespace_refuted_proof. Qed.
 (** the hypotheses are satisfiable by a non-trivial value: a dumped document, two different strings *)
 Check XPathSpellingExamples.ex_hypotheses.
 Check XPathSpellingExamples.ex_spell2_differs : spell XPathSpellingExamples.ex_short XPathSpellingExamples.ex_sp2 <> spell XPathSpellingExamples.ex_short XPathSpellingExamples.ex_sp1.
+Check XPathSpellingExamples.c08_dtd_doc_ord.
+Check XPathSpellingExamples.ex_ord_hypotheses.
+Check XPathSpellingExamples.ex_ord_same.
+Check XPathSpellingExamples.ex_ord_value.
 Check XPathSpellingExamples.ex_light_hypotheses.
 Check XPathSpellingExamples.ex_light_same.
 Check XPathSpellingExamples.ex_value2 :
@@ -343,6 +381,9 @@ Print Assumptions parse_shaped.
 Print Assumptions eval_abs.
 Print Assumptions spelling_irrelevant_partial.
 Print Assumptions spelling_irrelevant_fails.
+Print Assumptions spelling_irrelevant_ord_partial.
+Print Assumptions doc_ord_b_sound.
+Print Assumptions spelling_irrelevant_ord_context_partial.
 Print Assumptions white_space_irrelevant.
 Print Assumptions spelling_irrelevant_light.
 Print Assumptions lnorm_equiv.
